@@ -543,6 +543,12 @@ func requestExpectation(ct optStr) (mode string, fam family) {
 	}
 	mt, _, err := mime.ParseMediaType(ct.V)
 	if err != nil {
+		// malformed as a whole. When what stands before the parameters is a
+		// well-formed media type outside the supported set, no reading makes
+		// the request's media type a supported one: it must not be decoded.
+		if bt, _, berr := mime.ParseMediaType(baseType(ct.V)); berr == nil && !isSupportedExact(bt) && familyOf(bt) == famNone {
+			return "never", famJSON
+		}
 		return "may", announcedLoose(ct.V)
 	}
 	if isSupportedExact(mt) {
@@ -629,6 +635,7 @@ var gridRequestCT = []optStr{
 	{true, "application/vnd.api+json"}, {true, "application/soap+xml"}, {true, "application/vnd.x+gob"}, {true, "text/vnd.x+html"}, {true, "+json"},
 	{true, "application/foo"}, {true, "text/xml"}, {true, "image/png"}, {true, "application/x-www-form-urlencoded"}, {true, "multipart/form-data; boundary=x"}, {true, "application/octet-stream"}, {true, "json"}, {true, "application/jsonx"}, {true, "text/json"}, {true, "*/*"}, {true, "application/*"}, {true, "application/vnd.x+yaml"},
 	{true, "application/json; charset"}, {true, "a b"}, {true, ";"}, {true, "application/json, application/xml"}, {true, "\xff"},
+	{true, "application/xml; charset"}, {true, "text/plain; charset=utf-8; charset=iso-8859-1"}, {true, "application/gob; ="}, {true, "text/html; q"}, {true, "application/xml, application/json"}, {true, "image/png; ="}, {true, "/json"},
 }
 
 func TestRequestGrid(t *testing.T) {
